@@ -424,6 +424,77 @@ fn expand_cloud(m: &CloudModel, depth: usize, l: &mut Local, out: &mut Vec<Cloud
         ok &= PointCloud::try_new(pts(), Some(normals(n)), Some(colors(n))).is_ok() && PointCloud::try_new(pts(), None, Some(colors(n))).is_ok();
         l.check("construction: parallel arrays of another length are refused, matching ones accepted", "", ok, mk("try_new".into()), || format!("{:?}", m));
     }
+    // the same contents obtained through the other constructors and conversions, then used further
+    {
+        l.eval();
+        let pts_v: Vec<Point3> = m.pts.iter().map(|i| Point3::new(*i as f64, 0.0, 0.0)).collect();
+        let nrm = |i: i32| UnitVec3::new_normalize(Vector3::new(1.0, i as f64, 0.0));
+        let mut alts: Vec<(&str, PointCloud)> = Vec::new();
+        let mut ok = true;
+        if m.pts.is_empty() {
+            alts.push(("empty", PointCloud::empty(m.normals.is_some(), m.colors.is_some())));
+        }
+        match (&m.normals, &m.colors) {
+            (None, None) => alts.push(("from points", PointCloud::from(&pts_v[..]))),
+            (Some(nv), None) => {
+                let nrm_v: Vec<UnitVec3> = nv.iter().map(|i| nrm(*i)).collect();
+                match PointCloud::try_from((&pts_v[..], &nrm_v[..])) {
+                    Ok(c) => alts.push(("try_from points and normals", c)),
+                    Err(_) => ok = false,
+                }
+                let mut longer = nrm_v.clone();
+                longer.push(nrm(99));
+                ok &= PointCloud::try_from((&pts_v[..], &longer[..])).is_err();
+                if !nrm_v.is_empty() {
+                    ok &= PointCloud::try_from((&pts_v[..], &nrm_v[1..])).is_err();
+                }
+                let sp: Vec<engeom::SurfacePoint3> = pts_v.iter().zip(nrm_v.iter()).map(|(p, n)| engeom::SurfacePoint3::new(*p, *n)).collect();
+                alts.push(("from surface points", PointCloud::from(&sp[..])));
+            }
+            _ => {}
+        }
+        let direct = cloud_of(m);
+        ok &= direct.is_empty() == m.pts.is_empty();
+        if !m.pts.is_empty() {
+            let bb = direct.aabb();
+            let (lo, hi) = (m.pts.iter().min().unwrap(), m.pts.iter().max().unwrap());
+            ok &= bb.mins.x == *lo as f64 && bb.maxs.x == *hi as f64 && bb.mins.y == 0.0 && bb.maxs.z == 0.0;
+        }
+        let mut which = String::new();
+        for (name, mut c) in alts {
+            l.bucket("point cloud: built through another constructor or conversion");
+            let mut fine = cloud_same(&c, m) && c.is_empty() == m.pts.is_empty();
+            // and it behaves like the model afterwards: a matching append is taken, a mismatching merge refused
+            let id = m.pts.len() as i32 + 1;
+            let r = c.append(Point3::new(id as f64, 0.0, 0.0), m.normals.as_ref().map(|_| nrm(id)), m.colors.as_ref().map(|_| [id as u8, 0, 0]));
+            let mut m2 = m.clone();
+            m2.pts.push(id);
+            if let Some(n) = m2.normals.as_mut() {
+                n.push(id);
+            }
+            if let Some(cc) = m2.colors.as_mut() {
+                cc.push(id as u8);
+            }
+            fine &= r.is_ok() && cloud_same(&c, &m2);
+            let wrong = CloudModel { pts: vec![70], normals: if m.normals.is_some() { None } else { Some(vec![70]) }, colors: m.colors.clone().map(|_| vec![70]) };
+            fine &= c.merge(cloud_of(&wrong)).is_err() && cloud_same(&c, &m2);
+            if !fine {
+                which = name.to_string();
+            }
+            ok &= fine;
+        }
+        l.check("a cloud obtained through empty, From or TryFrom has the contents of the model and behaves like it", "", ok, mk("alternate constructors".into()), || format!("{:?} ({})", m, which));
+        // moving a cloud moves points and normals and leaves lengths and colours alone
+        let iso = engeom::Iso3::new(Vector3::new(1.5, -2.0, 0.25), Vector3::new(0.3, -0.2, 0.9));
+        let mut moved = cloud_of(m);
+        moved.transform(&iso);
+        let mut okm = moved.len() == m.pts.len() && moved.normals().map(|n| n.len()) == m.normals.as_ref().map(|n| n.len()) && moved.colors().map(|c| c.to_vec()) == direct.colors().map(|c| c.to_vec());
+        okm &= moved.points().iter().zip(direct.points().iter()).all(|(a, b)| (a - iso * b).norm() <= 1e-12);
+        if let (Some(a), Some(b)) = (moved.normals(), direct.normals()) {
+            okm &= a.iter().zip(b.iter()).all(|(x, y)| (x.into_inner() - iso * y.into_inner()).norm() <= 1e-12);
+        }
+        l.check("transforming a cloud moves points, turns normals and keeps the parallel arrays", "", okm, mk("transform".into()), || format!("{:?}", m));
+    }
     let next_id = m.pts.len() as i32 + 1;
     for wn in [false, true] {
         for wc in [false, true] {
@@ -449,6 +520,26 @@ fn expand_cloud(m: &CloudModel, depth: usize, l: &mut Local, out: &mut Vec<Cloud
             l.outcome(hash_of(&(accept, wn, wc)));
             l.bucket(if accept { "point cloud: accepted operation" } else { "point cloud: rejected operation" });
             l.check("append: accepted exactly when presence matches; rejected appends change nothing", "", r.is_ok() == accept && cloud_same(&pc, &m2), mk(format!("append normal={} color={}", wn, wc)), || format!("{:?}", m));
+            {
+                // the same object keeps working after an accepted or a rejected call
+                let id = m2.pts.len() as i32 + 1;
+                let r2 = pc.append(
+                    Point3::new(id as f64, 0.0, 0.0),
+                    m.normals.as_ref().map(|_| UnitVec3::new_normalize(Vector3::new(1.0, id as f64, 0.0))),
+                    m.colors.as_ref().map(|_| [id as u8, 0, 0]),
+                );
+                let mut m3 = m2.clone();
+                m3.pts.push(id);
+                if let Some(n) = m3.normals.as_mut() {
+                    n.push(id);
+                }
+                if let Some(c) = m3.colors.as_mut() {
+                    c.push(id as u8);
+                }
+                let sub = pc.create_from_indices(&[m3.pts.len() - 1, 0]);
+                let msub = CloudModel { pts: vec![m3.pts[m3.pts.len() - 1], m3.pts[0]], normals: m3.normals.as_ref().map(|n| vec![n[n.len() - 1], n[0]]), colors: m3.colors.as_ref().map(|c| vec![c[c.len() - 1], c[0]]) };
+                l.check("the same cloud object keeps following the model after an accepted or rejected append", "", r2.is_ok() && cloud_same(&pc, &m3) && cloud_same(&sub, &msub), mk(format!("append normal={} color={} then a matching append", wn, wc)), || format!("{:?}", m));
+            }
             if accept {
                 out.push(m2);
             }
